@@ -1457,6 +1457,10 @@ theorem geoWalk_eq_geoTree (bo : ByteOrder) (sp : List FieldSpan) (bl : Nat) (lv
 
 /-! ### cursor ranges -/
 
+/-- inside the precondition `pos < size()` the converted difference is the difference -/
+theorem subIndex_of_le (w a b : Nat) (h : b ≤ a) : subIndex w a b = a - b := by
+  unfold subIndex; rw [if_pos h]
+
 /-- **sub-range clause**: in a checked build, for every `pos` and `count`, the
     range object a group view hands out is exactly the documented one —
     `[0, size)`, `[pos, size)`, `[pos, pos + count)` with the block length of the
@@ -1473,7 +1477,8 @@ theorem mkRange_spec (bo : ByteOrder) (buf : List Nat) (e : Nat) (dim : Dim) (p 
   | all => simp [mkRange, cursorRange, groupHeader, rangeSpec, bind, Except.bind, hH]
   | sub pos =>
     by_cases hp : pos < rd bo buf (p + dim.numOff) dim.numSize
-    · simp [mkRange, cursorSubrange1, groupHeader, rangeSpec, bind, Except.bind, hH, hp]
+    · simp [mkRange, cursorSubrange1, groupHeader, rangeSpec, bind, Except.bind, hH, hp,
+        subIndex_of_le _ _ _ (Nat.le_of_lt hp)]
     · simp [mkRange, cursorSubrange1, groupHeader, rangeSpec, bind, Except.bind, hH, hp]
   | subn pos count =>
     by_cases hp : pos < rd bo buf (p + dim.numOff) dim.numSize
@@ -1494,9 +1499,11 @@ theorem mkRange_unchecked (bo : ByteOrder) (buf : List Nat) (dim : Dim) (p : Nat
   | sub pos =>
     simp only [rangeSpec] at h
     split at h
-    · simp only [Option.some.injEq, Prod.mk.injEq] at h
+    · rename_i hp
+      simp only [Option.some.injEq, Prod.mk.injEq] at h
       obtain ⟨rfl, rfl⟩ := h
-      simp [mkRange, cursorSubrange1, groupHeader, sizeCheck, sizeOk, bind, Except.bind]
+      simp [mkRange, cursorSubrange1, groupHeader, sizeCheck, sizeOk, bind, Except.bind,
+        subIndex_of_le _ _ _ (Nat.le_of_lt hp)]
     · simp at h
   | subn pos count =>
     simp only [rangeSpec] at h
